@@ -344,8 +344,22 @@ func c12_2(c *core.Ctx, p *core.Prog) {
 		if !ok || !isPdataType(ent) {
 			continue
 		}
+		// the entry point may hand its work to a (generic) helper that calls Produce: one call site per instantiation
+		callsProduce := func(f *ssa.Function) bool {
+			found := false
+			core.EachCall(f, func(ci ssa.CallInstruction) {
+				if ci.Common().StaticCallee() == a.produce {
+					found = true
+				}
+			})
+			return found
+		}
+		body := fn
+		if d := delegateOf(p, fn, callsProduce); d != nil {
+			body = d
+		}
 		var call *ssa.Call
-		core.EachInstr(fn, func(i ssa.Instruction) {
+		core.EachInstr(body, func(i ssa.Instruction) {
 			if cl, ok := i.(*ssa.Call); ok && cl.Call.StaticCallee() == a.produce {
 				call = cl
 			}
@@ -383,13 +397,13 @@ func c12_2(c *core.Ctx, p *core.Prog) {
 			continue
 		}
 		mk, ok := first.(*ssa.Call)
-		if !ok || mk.Call.StaticCallee() == nil || core.FnPkgPath(mk.Call.StaticCallee()) != pkgRecordMsg {
+		if !ok || core.StaticCallee(mk) == nil || core.FnPkgPath(core.StaticCallee(mk)) != pkgRecordMsg {
 			c.Viol(key, pos, core.FuncName(fn), "the first message handed to Produce is not built by a record_message constructor")
 			continue
 		}
-		// the constructor's payload type constant
+		// the constructor's payload type constant (the constructor may reach a shared helper as a function value)
 		got := ""
-		core.EachInstr(mk.Call.StaticCallee(), func(i ssa.Instruction) {
+		core.EachInstr(core.StaticCallee(mk), func(i ssa.Instruction) {
 			if s, ok := i.(*ssa.Store); ok {
 				if fa, ok := s.Addr.(*ssa.FieldAddr); ok && core.TypeName(core.FieldVar(fa).Type()) == "ArrowPayloadType" {
 					if k, isC := core.ConstInt(s.Val); isC {
@@ -399,7 +413,7 @@ func c12_2(c *core.Ctx, p *core.Prog) {
 			}
 		})
 		c.Check(got == want, key, pos, core.FuncName(fn), "the first payload is the "+want+" main record",
-			fmt.Sprintf("the first message handed to Produce is built by %s, whose payload type is %s, not the main type %s of this signal: consumers take the first payload as the main record", mk.Call.StaticCallee().Name(), got, want))
+			fmt.Sprintf("the first message handed to Produce is built by %s, whose payload type is %s, not the main type %s of this signal: consumers take the first payload as the main record", core.StaticCallee(mk).Name(), got, want))
 	}
 	if n < 3 {
 		c.Undecided("count", "?", "", fmt.Sprintf("expected 3 BatchArrowRecordsFrom* functions calling Produce, found %d", n))
